@@ -586,6 +586,22 @@ class Calls(Exec):
             m = self.ev1(a[0], st)
             ch = self.ev1(a[1], st)
             return VBool(self.holds(st, m, ch, node))
+        if name == 'chars_hold':
+            # chars_hold(s, a, b, m): every character s[i], a <= i < b, is accepted by the matcher m;
+            # encoded over absolute array positions (see all_decimal)
+            sv = self.ev1(a[0], st)
+            lo = self.ev1(a[1], st).t
+            hi = self.ev1(a[2], st).t
+            m = self.ev1(a[3], st)
+            arr, off, n = str_parts(self.as_str(sv))
+            k = fresh_int('qk')
+            s2 = st.fork()
+            body = self.holds(s2, m, VCh(z3.Select(arr, k)), node)
+            extra = s2.pc[len(st.pc):]
+            rng = AND(k >= simp(off + lo), k < simp(off + hi))
+            if getattr(st, 'spec_assume', False):
+                return VBool(z3.ForAll([k], IMPL(rng, AND(body, *extra))))
+            return VBool(z3.ForAll([k], IMPL(AND(rng, *extra), body)))
         if name == 'fresh':
             v = self.ev1(a[0], st)
             if st.old is None:
@@ -757,8 +773,13 @@ class Calls(Exec):
             return AND(v.t >= 0, isdecimal_uf(v.t))
         if v.lit is not None:
             return z3.BoolVal(v.lit.isdecimal())
-        i = fresh_int('qi')
-        return AND(v.ln > 0, z3.ForAll([i], z3.Implies(z3.And(i >= 0, i < v.ln), isdecimal_uf(z3.Select(v.arr, v.off + i)))))
+        # quantified over *absolute* array positions, so that the pattern Select(arr, k) matches the
+        # facts produced by chars_hold() whatever the view offsets are
+        k = fresh_int('qk')
+        lo = simp(v.off)
+        hi = simp(v.off + v.ln)
+        return AND(v.ln > 0, z3.ForAll([k], z3.Implies(z3.And(k >= lo, k < hi),
+                                                        z3.And(z3.Select(v.arr, k) >= 0, isdecimal_uf(z3.Select(v.arr, k))))))
 
     def to_int(self, st, v, node):
         if isinstance(v, (VInt, VBool)):
